@@ -16,6 +16,10 @@ def run(tier):
         rp.run_lens("adjsubs_" + sr, limit=LIMIT[tier], timeout=tmo, workers=15)
     # non-injective substitutions of a leaf (diagonals), whole lens
     rp.run_lens("adjdiag", timeout=1500)
+    # adjoints through a Cat of three leaves of different sizes
+    rp.run_lens("adjcat", timeout=1500)
+    # proper slices of a leaf directly under the final reduction (Number-valued incoming adjoint)
+    rp.run_lens("adjslice", timeout=1500)
     out.add_replay(rp, "adjoint")
     out.coverage = check.replay_coverage(
         rp, "every sum-product expression of the (add,mul) and (logaddexp,add) semiring lenses whose tensor leaves are "
